@@ -32,6 +32,10 @@ truncates toward zero".
      integer bases truncate in Fortran); and a fold that discards the exponent
      requires the exponent to be a literal, except for base 1 (x**k depends on k
      for every other x: 0**0 = 1).
+ R8  a minus-prefixed product is unwrapped as a whole: ``is_minus_prefix(x)`` only
+     says that the first factor is -1; under that guard "the rest" is
+     ``strip_minus_prefix(x)``, never ``x.children[1]`` (which drops the factors
+     after the second one).
  R7  the work-list rewrites treat every term on its own: inside
      ``while queue: item = queue.pop(0)`` an expression constructor takes its
      operands from the current item and loop-invariant data; a variable that the
@@ -142,6 +146,44 @@ def run(ctx):
     _logic_rules(ctx, S)
     arithmetic_shape_rules(ctx, 'R4', 'R5', 'R6')
     loop_carried_operands(ctx, 'R7')
+    minus_prefix_unwrapping(ctx, 'R8')
+
+
+def minus_prefix_unwrapping(ctx, rid):
+    """under `is_minus_prefix(x)` the rest of the product is `strip_minus_prefix(x)` / `x.children[1:]`, never `x.children[1]`"""
+    m = ctx.model
+    mod = m.module_by_path(FILE)
+    ctx.rule(rid, 'a minus-prefixed product (-1)*f1*f2*... is unwrapped as a whole: under the guard is_minus_prefix(x) no `x.children[1]`')
+    imp = mod.functions.get('is_minus_prefix')
+    smp = mod.functions.get('strip_minus_prefix')
+    if imp is None or smp is None:
+        raise AnalysisError('is_minus_prefix / strip_minus_prefix vanished')
+    # the rule only makes sense while a minus prefix may have more than one further factor: strip_minus_prefix handles `children[1:]`
+    if 'children[1:]' not in ast.unparse(smp.node):
+        raise AnalysisError('strip_minus_prefix no longer handles several remaining factors: rule stale')
+    n = 0
+    fns = [f for f in mod.functions.values()] + [mem_ for c in mod.classes.values() for mem_ in (c.function(n_) for n_ in c.members) if mem_ is not None]
+    seen = set()
+    for f in fns:
+        for fn in [x for x in ast.walk(f.node) if isinstance(x, ast.FunctionDef)]:
+            if id(fn) in seen:
+                continue
+            seen.add(id(fn))
+            if fn.name in ('is_minus_prefix', 'strip_minus_prefix'):
+                continue
+            for sub, guards in X.nodes_with_guards(fn, lambda x: isinstance(x, ast.Subscript) and isinstance(x.value, ast.Attribute)
+                                                   and x.value.attr == 'children' and isinstance(x.slice, ast.Constant) and x.slice.value == 1, early=False):
+                v = ast.unparse(sub.value.value)
+                if any(g.replace(' ', '') == f'is_minus_prefix({v})' for g in guards):
+                    n += 1
+                    ctx.violation(rid, f'{fn.name}:second-child-only', f'{mod.relpath}:{sub.lineno}',
+                                  f'`{ast.unparse(sub)}` under `is_minus_prefix({v})` takes the second child for "the rest of the product": a '
+                                  f'minus prefix may be followed by several factors ((-1)*b*c), all but the first of which are dropped -- '
+                                  f'a + 3*((-1)*b*c) becomes a - 3*b')
+            n += sum(1 for c in ast.walk(fn) if isinstance(c, ast.Call) and X.call_name_of(c) == 'is_minus_prefix')
+    ctx.floor(rid, 'uses of is_minus_prefix', n, 6)
+    if not any(f_.rule == rid for f_ in ctx.findings):
+        ctx.judge(rid, 'minus prefixes are unwrapped as a whole')
 
 
 def loop_carried_operands(ctx, rid):
@@ -404,6 +446,8 @@ def _logic_rules(ctx, S):
 
 
 MUTANTS = [
+    Mutant('minus-prefix-second-child', FILE, "            value, has_float, component = _process(strip_minus_prefix(child))", "            value, has_float, component = _process(child.children[1])",
+           expect=('R8', 'second-child-only')),
     Mutant('merged-denominator-leaks', FILE, "    queue = [expr.numerator]\n    done = []\n",
            "    queue = [expr.numerator]\n    denominator = expr.denominator\n    done = []\n",
            also=[(FILE, "            done += [distribute_quotient(sym.Quotient(item.numerator, item.denominator * expr.denominator))]",
